@@ -155,6 +155,13 @@ theorem good_splice (E : RopeEnv σ γ) (inp st : List σ) (i d n : Nat) (hG : G
   · exact hG.2.2 p h
   · exact ⟨st[i], st[d], Or.inr hcm, n, h⟩
 
+theorem JOk_ite (E : RopeEnv σ γ) (fixed : Bool) (inp st : List σ) (c : Prop) [Decidable c]
+    (X : List σ) (o : Bool) (hG : Good E inp X) (ho : fixed = true → o = false) :
+    JOk E fixed inp st (if c then .ret X true o else .restart X o) := by
+  split
+  · exact ⟨hG, fun h => absurd h (by simp), ho⟩
+  · exact ⟨hG, ho⟩
+
 theorem ropeInner_ok (E : RopeEnv σ γ) (fixed : Bool) (inp st : List σ) (i : Nat)
     (hG : Good E inp st) : ∀ j, j < st.length → JOk E fixed inp st (ropeInner E fixed st i j) := by
   intro j
@@ -192,9 +199,7 @@ theorem ropeInner_ok (E : RopeEnv σ γ) (fixed : Bool) (inp st : List σ) (i : 
                 | some x => (x, false)
                 | none => (st[j + 1], true)).snd = false := by
               intro h; subst h; rfl
-            split
-            · exact ⟨hgood _, fun h => absurd h (by simp), hfix⟩
-            · exact ⟨hgood _, hfix⟩
+            exact JOk_ite E fixed inp st _ _ _ (hgood _) hfix
           · exact ihj
       · exact ihj
 
